@@ -205,6 +205,8 @@ func runHeader(c headerCase) harness.Result {
 	hdr := []byte{0, 0, byte(c.Proto >> 8), byte(c.Proto), byte(c.Length >> 8), byte(c.Length), 0, 0}
 	s := c.Seed ^ uint64(c.Length)<<16 ^ uint64(c.Proto)
 	accepted := 0
+	var heldErr *packet.ErrorParseTCP
+	var heldEnc, heldFrame []byte
 	for fc := 0; fc < 256; fc++ {
 		v := harness.SplitMix64(&s)
 		hdr[0], hdr[1], hdr[6], hdr[7] = byte(v), byte(v>>8), byte(v>>16), byte(fc)
@@ -281,9 +283,16 @@ func runHeader(c headerCase) harness.Result {
 			if !errors.As(perr, &pe) {
 				return harness.Fail("classifier accepted %x; dispatcher error %T %v is not an *ErrorParseTCP", hdr, perr, perr)
 			}
-			if !validException(pe.Bytes()) {
-				return harness.Fail("classifier accepted %x; dispatcher error %v encodes to %x which is not a valid exception ADU", hdr, perr, pe.Bytes())
+			enc := append([]byte(nil), pe.Bytes()...)
+			if !validException(enc) {
+				return harness.Fail("classifier accepted %x; dispatcher error %v encodes to %x which is not a valid exception ADU", hdr, perr, enc)
 			}
+			// an error kept from an earlier rejection must still encode to what it encoded to then (two requests can be rejected
+			// before either exception is sent)
+			if heldErr != nil && string(heldErr.Bytes()) != string(heldEnc) {
+				return harness.Fail("the error returned for the rejected frame %x encoded to %x; after the rejection of %x it encodes to %x: rejections share an error value", heldFrame, heldEnc, trunc(frame), heldErr.Bytes())
+			}
+			heldErr, heldEnc, heldFrame = pe, enc, append([]byte(nil), trunc(frame)...)
 		}
 	}
 	labels := []string{}
